@@ -24,7 +24,7 @@ PPc(g) == CASE g = "start" -> "start" [] g = "done" -> "start"
             [] g = "acquire.loaded" -> "loaded" [] g = "acquire.create" -> "create" [] g = "acquire.store" -> "store"
             [] g = "acquire.loaded2" -> "loaded2" [] g = "emit.enqueue" -> "enq" [] g = "emit.release" -> "rel"
             [] OTHER -> "?"
-CPc(g) == CASE g = "convoy.top" -> "top" [] g = "task.start" -> "task" [] g = "convoy.timer" -> "timer"
+CPc(g) == CASE g = "convoy.top" -> "top" [] g = "task.start" -> "task" [] g = "convoy.timer" -> "timer" [] g = "convoy.popov" -> "popov"
             [] g = "convoy.checked" -> "checked" [] g = "convoy.claimed" -> "claimed" [] g = "convoy.recycle" -> "recycle"
             [] g = "convoy.exit" -> "exited" [] OTHER -> "?"
 MaxConvoys == 12
@@ -69,7 +69,7 @@ ConvoyStep ==
   /\ \E q \in QIds :
        /\ (cmap[Line.n] = q \/ (cmap[Line.n] = 0 /\ \A i \in 1..MaxConvoys : cmap[i] # q))
        /\ cpc[q] = CPc(Line.from)
-       /\ \/ CPop(q) \/ CRun(q) \/ CTimer(q) \/ CClaim(q) \/ CDelete(q) \/ CRecycle(q)
+       /\ \/ CPop(q) \/ CPopOv(q) \/ CRun(q) \/ CTimer(q) \/ CClaim(q) \/ CDelete(q) \/ CRecycle(q)
        /\ cpc'[q] = CPc(Line.to)
        /\ cmap' = [cmap EXCEPT ![Line.n] = IF Line.to = "convoy.exit" THEN 0 ELSE q]
   /\ l' = l + 1
